@@ -1,6 +1,6 @@
-\* the incremental monitor accepts exactly the well-formed streams (all streams of <= 3 tokens, offsets -1..2, input length 0..2)
+\* the incremental monitor accepts exactly the well-formed streams (all streams of <= 2 tokens, offsets -1..3, input length 0..2)
 SPECIFICATION MonitorSpec
-CONSTANTS MaxLen = 0 MaxTokens = 3 MaxPos = 2
+CONSTANTS MaxLen = 0 MaxTokens = 2 MaxPos = 3
 INVARIANTS MonitorSound MonitorIsFold VerdictNamesFirst
 PROPERTY VerdictStable
 CHECK_DEADLOCK FALSE
